@@ -671,6 +671,125 @@ func protocolFacts() {
 	}
 	add("lateRequestCannotConvertLeader", "Bool", boolLean(strings.Contains(gb, "} else if leader, ok := s.leaders[shardId]; ok { if term >= 0 && term != leader.Term() { return nil, constant.ErrInvalidTerm }")),
 		"server/shards_director.go: GetOrCreateFollower", "a Replicate / Truncate request only replaces a leader controller by a follower controller when it carries the leader's current term")
+	lc := parse("server/leader_controller.go")
+	tf := funcDecl(lc, "leaderController", "truncateFollowerIfNeeded")
+	tb := ""
+	if tf != nil {
+		tb = squash(src(tf.Body))
+	}
+	add("truncateComparesWithFollowerTermEntry", "Bool", boolLean(
+		strings.Contains(tb, "if followerHeadEntryId.Term == lc.leaderElectionHeadEntryId.Term && followerHeadEntryId.Offset <= lc.leaderElectionHeadEntryId.Offset {") &&
+			strings.Contains(tb, "if followerHeadEntryId.Term > lc.leaderElectionHeadEntryId.Term { return nil, constant.ErrInvalidStatus }") &&
+			strings.Contains(tb, "lastEntryInFollowerTerm, err := getHighestEntryOfTerm(lc.wal, followerHeadEntryId.Term)") &&
+			strings.Contains(tb, "if followerHeadEntryId.Term == lastEntryInFollowerTerm.Term && followerHeadEntryId.Offset <= lastEntryInFollowerTerm.Offset {") &&
+			strings.Contains(tb, "HeadEntryId: lastEntryInFollowerTerm, })") && strings.Contains(tb, "return tr.HeadEntryId, nil")),
+		"server/leader_controller.go: truncateFollowerIfNeeded",
+		"no truncation iff the follower's head is on the election head's term at or below it, or on an older term at or below the leader's last entry of that term; otherwise truncate to that entry and continue from the follower's answer")
+	af := funcDecl(lc, "leaderController", "addFollower")
+	ab := ""
+	if af != nil {
+		ab = squash(src(af.Body))
+	}
+	add("cursorStartsAtTruncatedHead", "Bool", boolLean(strings.Contains(ab, "followerHeadEntryId, err := lc.truncateFollowerIfNeeded(follower, followerHeadEntryId)") &&
+		strings.Contains(ab, "lc.quorumAckTracker, lc.wal, lc.db, followerHeadEntryId.Offset)")),
+		"server/leader_controller.go: addFollower", "the cursor (and its acker) starts at the head the follower has after the truncation")
+	fc := parse("server/follower_controller.go")
+	tr := funcDecl(fc, "followerController", "Truncate")
+	trb := ""
+	if tr != nil {
+		trb = squash(src(tr.Body))
+	}
+	add("followerTruncateOnlyWhenFenced", "Bool", boolLean(strings.Contains(trb, "if fc.status != proto.ServingStatus_FENCED { return nil, constant.ErrInvalidStatus } if req.Term != fc.term { return nil, constant.ErrInvalidTerm }")),
+		"server/follower_controller.go: Truncate", "a truncation is accepted only in status FENCED and only for the follower's own term")
+	ap := funcDecl(fc, "followerController", "append")
+	apb := ""
+	if ap != nil {
+		apb = squash(src(ap.Body))
+	}
+	iLock := strings.Index(apb, "fc.Lock() defer fc.Unlock()")
+	iTerm := strings.Index(apb, "if req.Term != fc.term { return constant.ErrInvalidTerm }")
+	iStat := strings.Index(apb, "fc.status = proto.ServingStatus_FOLLOWER")
+	iDup := strings.Index(apb, "if req.Entry.Offset <= fc.lastAppendedOffset {")
+	iApp := strings.Index(apb, "fc.wal.AppendAsync(req.GetEntry())")
+	add("followerAppendChecksTermAlways", "Bool", boolLean(iLock >= 0 && iTerm > iLock && iStat > iTerm && iDup > iStat && iApp > iDup),
+		"server/follower_controller.go: append", "under the controller lock: term check first (in every status), then duplicate suppression by offset, then the WAL append")
+	rs := funcDecl(fc, "followerController", "readSnapshotStream")
+	rsb := ""
+	if rs != nil {
+		rsb = squash(src(rs.Body))
+	}
+	add("snapshotChunkTermMustEqual", "Bool", boolLean(strings.Contains(rsb, "snapChunk.Term != fc.term")),
+		"server/follower_controller.go: readSnapshotStream", "a snapshot chunk of another term is refused")
+	fnt := funcDecl(fc, "followerController", "NewTerm")
+	lnt := funcDecl(lc, "leaderController", "NewTerm")
+	fb, lb := "", ""
+	if fnt != nil {
+		fb = squash(src(fnt.Body))
+	}
+	if lnt != nil {
+		lb = squash(src(lnt.Body))
+	}
+	add("newTermRejectsLowerAndPersistsFirst", "Bool", boolLean(
+		strings.Contains(fb, "if req.Term < fc.term {") && strings.Index(fb, "fc.db.UpdateTerm(req.Term, fc.termOptions)") < strings.Index(fb, "fc.term = req.Term") && strings.Index(fb, "fc.db.UpdateTerm(") > 0 &&
+			strings.Contains(lb, "if req.Term < lc.term { return nil, constant.ErrInvalidTerm } else if req.Term == lc.term && lc.status != proto.ServingStatus_FENCED {") &&
+			strings.Index(lb, "lc.db.UpdateTerm(req.Term, lc.termOptions)") < strings.Index(lb, "lc.term = req.Term") && strings.Index(lb, "lc.db.UpdateTerm(") > 0 &&
+			strings.Index(lb, "lc.status = proto.ServingStatus_FENCED") < strings.Index(lb, "getLastEntryIdInWal(lc.wal)") &&
+			strings.Index(fb, "fc.status = proto.ServingStatus_FENCED") < strings.Index(fb, "getLastEntryIdInWal(fc.wal)")),
+		"server/*_controller.go: NewTerm", "a lower term is refused; the term is written to the database before it is adopted in memory; the node is fenced before its head is read")
+	add("newTermWaitsForInFlightAppends", "Bool", boolLean(strings.HasPrefix(lb, "{ lc.appendLock.Lock() defer lc.appendLock.Unlock() lc.Lock() defer lc.Unlock()")),
+		"server/leader_controller.go: NewTerm", "NewTerm takes the append lock before the controller lock: a write that passed the status check has appended before the head is read")
+	db := parse("server/kv/db.go")
+	ut := funcDecl(db, "db", "UpdateTerm")
+	utb := ""
+	if ut != nil {
+		utb = squash(src(ut.Body))
+	}
+	add("updateTermFlushes", "Bool", boolLean(strings.Contains(utb, "batch.Commit()") && strings.Index(utb, "d.kv.Flush()") > strings.Index(utb, "batch.Commit()")),
+		"server/kv/db.go: UpdateTerm", "the term is committed and the store is flushed (Pebble has no WAL of its own) before UpdateTerm returns")
+	sc := parse("coordinator/controllers/shard_controller.go")
+	nq := funcDecl(sc, "shardController", "newTermQuorum")
+	nqb := ""
+	if nq != nil {
+		nqb = squash(src(nq.Body))
+	}
+	add("newTermQuorumMajorityOverEnsembleAndRemoved", "Bool", boolLean(
+		strings.Contains(nqb, "fencingQuorum := mergeLists(s.shardMetadata.Ensemble, s.shardMetadata.RemovedNodes) fencingQuorumSize := len(fencingQuorum) majority := fencingQuorumSize/2 + 1") &&
+			strings.Contains(nqb, "for successResponses < majority && totalResponses < fencingQuorumSize {") &&
+			strings.Contains(nqb, "if listContains(s.shardMetadata.Ensemble, r.Server) { res[r.Server] = r.EntryId }") &&
+			strings.Contains(nqb, "if successResponses < majority { return nil, errors.Wrap(err, \"failed to newTerm shard\") }")),
+		"coordinator/controllers/shard_controller.go: newTermQuorum",
+		"new-term requests go to the ensemble and to the nodes being removed; a majority of all of them must answer; only members of the ensemble become candidates")
+	el := funcDecl(sc, "shardController", "electLeader")
+	elb := ""
+	if el != nil {
+		elb = squash(src(el.Body))
+	}
+	iInc := strings.Index(elb, "s.shardMetadata.Term++")
+	iStore := strings.Index(elb, "s.statusResource.UpdateShardMetadata(s.namespace, s.shard, s.shardMetadata)")
+	iNt := strings.Index(elb, "s.newTermQuorum()")
+	iSel := strings.Index(elb, "selectNewLeader(fr)")
+	iBl := strings.Index(elb, "s.becomeLeader(newLeader, followers)")
+	add("coordinatorPersistsTermBeforeNewTerm", "Bool", boolLean(iInc >= 0 && iInc < iStore && iStore < iNt && iNt < iSel && iSel < iBl),
+		"coordinator/controllers/shard_controller.go: electLeader",
+		"the term is incremented and written to the metadata store before any NewTerm request is sent; the leader is selected from the answers; BecomeLeader follows")
+	sl := funcDecl(sc, "", "selectNewLeader")
+	slb := ""
+	if sl != nil {
+		slb = squash(src(sl.Body))
+	}
+	add("selectNewLeaderTakesMaxTermThenOffset", "Bool", boolLean(
+		strings.Contains(slb, "if headEntryId.Term > currentMaxTerm { currentMaxTerm = headEntryId.Term currentMax = headEntryId.Offset candidates = []model.Server{addr} } else if headEntryId.Term == currentMaxTerm { if headEntryId.Offset > currentMax { currentMax = headEntryId.Offset candidates = []model.Server{addr} } else if headEntryId.Offset == currentMax { candidates = append(candidates, addr) } }") &&
+			strings.Contains(slb, "leader = candidates[rand.Intn(len(candidates))]") && strings.Contains(slb, "if a != leader { followers[a] = e }")),
+		"coordinator/controllers/shard_controller.go: selectNewLeader", "candidates are the responders with the highest head term and, among those, the highest head offset (checked by differential runs through VerifSelectNewLeader)")
+	bl := funcDecl(lc, "leaderController", "BecomeLeader")
+	blb := ""
+	if bl != nil {
+		blb = squash(src(bl.Body))
+	}
+	add("becomeLeaderOnlyFromFencedSameTerm", "Bool", boolLean(strings.Contains(blb, "if lc.status != proto.ServingStatus_FENCED { return nil, constant.ErrInvalidStatus } if req.Term != lc.term { return nil, constant.ErrInvalidTerm }") &&
+		strings.Index(blb, "lc.quorumAckTracker.WaitForCommitOffset(ctx, lc.leaderElectionHeadEntryId.Offset)") < strings.Index(blb, "lc.applyAllEntriesIntoDB()") &&
+		strings.Index(blb, "lc.applyAllEntriesIntoDB()") < strings.Index(blb, "lc.status = proto.ServingStatus_LEADER") && strings.Index(blb, "WaitForCommitOffset(") > 0),
+		"server/leader_controller.go: BecomeLeader", "only a node fenced in that very term becomes leader; it serves only after its whole log is quorum-committed and applied")
 }
 
 // moreFacts collects the facts of the other properties (added per property).
